@@ -190,6 +190,11 @@ def processPublishExpected : List String :=
    "if pk.Properties.TopicAliasFlag && pk.Properties.TopicAlias > 0 {",
    "cl.State.TopicAliases.Inbound.Set",
    "}",
+   -- an alias that is not bound on this connection: protocol error (model: the 0x82 exit of `processPublish`)
+   "if !cl.Net.Inline && pk.TopicName == \"\" {",
+   "s.DisconnectClient(cl, packets.ErrProtocolViolationNoTopic)",
+   "return _",
+   "}",
    "if pk.FixedHeader.Qos > s.Options.Capabilities.MaximumQos {",
    "pk.FixedHeader.Qos = s.Options.Capabilities.MaximumQos",
    "}",
